@@ -1,11 +1,13 @@
 #!/usr/bin/env python3
 """Verifies a seeded change independently in a scratch worktree:
    patch applies, library builds, the existing suite passes with it, the demonstration fails with it and passes without.
-   usage: seedverify.py <Cxx> <mN> [--store]     (reads /tmp/seed/out-Cxx/mN, writes /verif/seeded/Cxx-mN when --store)"""
+   usage: seedverify.py <Cxx> <mN> [--store] [--src DIR] [--as mK]     (reads /tmp/seed/out-Cxx/mN, writes /verif/seeded/Cxx-mN when --store)"""
 import subprocess, sys, os, re, glob, json, shutil
 prop, m = sys.argv[1], sys.argv[2]
 store = '--store' in sys.argv
-src = f'/tmp/seed/out-{prop}/{m}'
+root = sys.argv[sys.argv.index('--src') + 1] if '--src' in sys.argv else '/tmp/seed'
+store_as = sys.argv[sys.argv.index('--as') + 1] if '--as' in sys.argv else m
+src = f'{root}/out-{prop}/{m}'
 WT = '/tmp/seedv/wt'
 env = dict(os.environ, GOFLAGS='-mod=mod', GOPROXY='off', GOSUMDB='off', GOTOOLCHAIN='local')
 def sh(cmd, cwd=WT, timeout=1200):
@@ -21,7 +23,7 @@ PKGDIR = {'dht': '.', 'dht_test': '.', 'traversal': 'traversal', 'traversal_test
           'k_nearest_nodes_test': 'k-nearest-nodes', 'getput': 'exts/getput', 'getput_test': 'exts/getput', 'types': 'types', 'types_test': 'types',
           'containers': 'containers', 'containers_test': 'containers', 'peer_store': 'peer-store', 'peer_store_test': 'peer-store',
           'transactions': 'transactions', 'transactions_test': 'transactions', 'k_nearest_nodes_test': 'k-nearest-nodes'}
-res = {'property': prop, 'id': f'{prop}-{m}'}
+res = {'property': prop, 'id': f'{prop}-{store_as}'}
 patch = os.path.join(src, 'patch.diff')
 rc, o = sh(f'git apply --check {patch}')
 if rc != 0:
@@ -70,13 +72,13 @@ good = res['builds'] and res['suite_passes_with'] and res['demo_fails_with'] and
 res['confirmed'] = good
 print(json.dumps({k: v for k, v in res.items() if k not in ('demo_with_output',)}, indent=None)[:900])
 if store and good:
-    dst = f'/verif/seeded/{prop}-{m}'
+    dst = f'/verif/seeded/{prop}-{store_as}'
     os.makedirs(dst, exist_ok=True)
     shutil.copy(patch, dst + '/patch.diff')
     for d, ddir, _ in placed:
         shutil.copy(d, dst + '/' + os.path.basename(d) + '.txt')   # .txt so that the harness module never compiles them
     if os.path.exists(os.path.join(src, 'notes.md')): shutil.copy(os.path.join(src, 'notes.md'), dst + '/notes.md')
-    meta = {'id': f'{prop}-{m}', 'breaks_property': prop, 'base_commit': subprocess.run('git -C /repo rev-parse --short HEAD', shell=True, capture_output=True, text=True).stdout.strip(),
+    meta = {'id': f'{prop}-{store_as}', 'breaks_property': prop, 'base_commit': subprocess.run('git -C /repo rev-parse --short HEAD', shell=True, capture_output=True, text=True).stdout.strip(),
             'demo_files': [{'file': os.path.basename(d) + '.txt', 'place_in': ddir, 'as': os.path.basename(d)} for d, ddir, _ in placed],
             'demo_tests': tests, 'confirmed': {'applies_at_base': True, 'builds': True, 'existing_suite_passes_with_change_2_runs': True, 'demo_fails_with_change': True, 'demo_passes_without_change': True},
             'what_i_ran': 'tools/seedverify.py in a scratch worktree of /repo (git apply --check; go build ./...; go test -vet=off -count=1 ./... twice with the change; the demo tests with and without the change)',
